@@ -21,6 +21,7 @@ type FuncResult struct {
 	Loops       int
 	LoopsNoVariant []int
 	Paths       int
+	Cuts        int
 	Err         string
 }
 
@@ -702,7 +703,7 @@ func (x *Exec) frameCheck(st *State, env *Env, pos token.Pos) {
 	sort.Strings(names)
 	top0 := x.entry.top
 	for _, n := range names {
-		if strings.HasPrefix(n, "VARIANT|") || allowedWhole[n] {
+		if strings.HasPrefix(n, "VARIANT|") || strings.HasPrefix(n, "unroll:") || allowedWhole[n] {
 			continue
 		}
 		cur := st.heap[n]
@@ -774,6 +775,7 @@ func verifyFunc(w *World, sp *Specs, fn *ssa.Function, spec *FuncSpec, safety bo
 		}
 	}
 	res.Paths = x.paths
+	res.Cuts = x.cuts
 	return res
 }
 
